@@ -163,6 +163,8 @@ def build_trace(sessions, results, want_cmd=True):
                     rec['k'] = int(meta['k']) if 'k' in meta else int(meta['arg'])
                 if op == 'set_key':
                     rec.update(limbs(int(meta['key'])))
+                if op == 'set_key_ext':
+                    rec['expect'] = int(meta['expect'])
                 recs.append(rec)
             elif meta['m'] == 'noncmd':
                 fw = o.get('forwarded_sql', [])
@@ -175,7 +177,9 @@ def build_trace(sessions, results, want_cmd=True):
                     same = (not o.get('landed')) or tx_backend is None or o['landed'] == tx_backend
                 rec = {'ev': 'stmt', 'class': meta['class'], 'parsed': parsed, 'role': role, 'shard': shard,
                        'intx': intx, 'same': same, 'sql': meta['sql'][:120], 'proto': meta.get('proto', 'simple'),
-                       'haskey': 'key' in meta, 'path': meta.get('path', ''), 'neg': False, 'hi': [0, 0], 'lo': [0, 0]}
+                       'haskey': 'key' in meta, 'path': meta.get('path', ''), 'neg': False, 'hi': [0, 0], 'lo': [0, 0],
+                       'ext': meta.get('ext', -1), 'setshard': meta.get('setshard', -1),
+                       'is_error': bool(o.get('errors'))}
                 if 'key' in meta:
                     rec.update(limbs(int(meta['key'])))
                 recs.append(rec)
@@ -618,3 +622,307 @@ def negative_control_c13(v, recs):
                 v.tool_error('negative control: corrupted SHOW value accepted')
             return
     v.tool_error('negative control: no SHOW PRIMARY READS in the trace')
+
+
+# ---------------------------------------------------------------------------------- C06
+import hashlib
+import struct as _struct
+
+# the 25 (key -> shard) pairs pgcat's own unit test derives from a real PostgreSQL (src/sharding.rs), n = 5
+PG_VECTORS_N5 = None
+
+
+def py_pg_shard(key, n):
+    """Reference implementation of PostgreSQL's hashint8extended + partition modulus (used only to cross-check
+    the TLA+ transcription on sampled keys; the verdicts come from TLC)."""
+    M = 0xFFFFFFFF
+
+    def rot(x, k):
+        return ((x << k) | (x >> (32 - k))) & M
+    u = key & 0xFFFFFFFFFFFFFFFF
+    lo, hi = u & M, u >> 32
+    lo ^= hi if key >= 0 else (~hi & M)
+    a = b = c = (0x9e3779b9 + 4 + 3923095) & M
+    seed = 0x7A5B22367996DCFD
+    a = (a + (seed >> 32)) & M
+    b = (b + (seed & M)) & M
+    # mix
+    a = (a - c) & M; a ^= rot(c, 4); c = (c + b) & M
+    b = (b - a) & M; b ^= rot(a, 6); a = (a + c) & M
+    c = (c - b) & M; c ^= rot(b, 8); b = (b + a) & M
+    a = (a - c) & M; a ^= rot(c, 16); c = (c + b) & M
+    b = (b - a) & M; b ^= rot(a, 19); a = (a + c) & M
+    c = (c - b) & M; c ^= rot(b, 4); b = (b + a) & M
+    a = (a + lo) & M
+    # final
+    c ^= b; c = (c - rot(b, 14)) & M
+    a ^= c; a = (a - rot(c, 11)) & M
+    b ^= a; b = (b - rot(a, 25)) & M
+    c ^= b; c = (c - rot(b, 16)) & M
+    a ^= c; a = (a - rot(c, 4)) & M
+    b ^= a; b = (b - rot(a, 14)) & M
+    c ^= b; c = (c - rot(b, 24)) & M
+    h = (b << 32) | c
+    h = (h + 0x49a0f4dd15e5a8e3) & 0xFFFFFFFFFFFFFFFF
+    return h % n
+
+
+def sha1_shard(key, n):
+    hx = hashlib.sha1(str(key).encode()).hexdigest()
+    return int(hx[-8:], 16) % n
+
+
+KEYCLASS = {
+    'zero': lambda r: 0, 'one': lambda r: 1, 'small': lambda r: r.randrange(2, 10 ** 6),
+    'i32max': lambda r: 2 ** 31 - 1, 'i32max_plus': lambda r: 2 ** 31 + r.randrange(0, 100),
+    'u32max': lambda r: 2 ** 32 - 1, 'u32max_plus': lambda r: 2 ** 32 + r.randrange(0, 10 ** 6),
+    'big': lambda r: r.randrange(2 ** 40, 2 ** 62), 'i64max': lambda r: 2 ** 63 - 1,
+    'neg_one': lambda r: -1, 'neg_small': lambda r: -r.randrange(2, 10 ** 6),
+    'neg_big': lambda r: -r.randrange(2 ** 33, 2 ** 62), 'i64min': lambda r: -2 ** 63,
+}
+POS_CLASSES = ['zero', 'one', 'small', 'i32max', 'i32max_plus', 'u32max', 'u32max_plus', 'big', 'i64max']
+NEG_CLASSES = ['neg_one', 'neg_small', 'neg_big', 'i64min']
+
+PATH_CFG = {'default_role': 'any', 'parser': True, 'rwsplit': True, 'primary_reads': True,
+            'automatic_sharding_key': 't.id',
+            'sharding_key_regex': r'/\* sharding_key: (-?\d+) \*/', 'shard_id_regex': r'/\* shard_id: (\d+) \*/'}
+
+
+def key_step(rng, path, key):
+    """Concrete statement that carries `key` on routing path `path`; returns (step, sql)."""
+    if path == 'comment':
+        sql = '/* sharding_key: %d */ SELECT 1' % key
+        return {'kind': 'q', 'sql': sql}, sql
+    if path == 'literal':
+        # spellings the router recognises as carrying the key ("accepted by the router"): an equality with the
+        # (qualified or unambiguous) key column; IN-lists, an unqualified column in DELETE and negative literals are
+        # not recognised by the pinned router and therefore outside the property's quantifier
+        sql = rng.choice([
+            'SELECT * FROM t WHERE id = %d', 'SELECT * FROM t WHERE t.id = %d', 'select a from t where a = 1 and id = %d',
+            'INSERT INTO t (id, a) VALUES (%d, 7)', 'UPDATE t SET a = 2 WHERE id = %d', 'DELETE FROM t WHERE t.id = %d',
+            'SELECT * FROM t JOIN u ON u.tid = t.id WHERE t.id = %d', 'SELECT * FROM public.t WHERE id = %d']) % key
+        return {'kind': 'q', 'sql': sql}, sql
+    if path in ('bind_text', 'bind_text_2nd'):
+        if path == 'bind_text':
+            sql = rng.choice(['SELECT * FROM t WHERE id = $1', 'SELECT * FROM t WHERE t.id = $1'])
+            return {'kind': 'ext', 'sql': sql, 'params': [str(key)]}, sql
+        sql = rng.choice(['SELECT * FROM t WHERE a = $1 AND id = $2', 'SELECT * FROM t WHERE a > $1 AND id = $2',
+                          'SELECT * FROM t WHERE a LIKE $1 AND t.id = $2'])
+        return {'kind': 'ext', 'sql': sql, 'params': [rng.choice(['x', '12345', 'hello world', '7']), str(key)]}, sql
+    if path in ('bind_binary', 'bind_binary_2nd'):
+        if -2 ** 15 <= key < 2 ** 15 and rng.random() < 0.3:
+            enc = _struct.pack('!h', key)
+        elif -2 ** 31 <= key < 2 ** 31 and rng.random() < 0.5:
+            enc = _struct.pack('!i', key)
+        else:
+            enc = _struct.pack('!q', key)
+        if path == 'bind_binary':
+            sql = 'SELECT * FROM t WHERE id = $1'
+            return {'kind': 'ext', 'sql': sql, 'params': [enc], 'fmts': [1]}, sql
+        sql = rng.choice(['SELECT * FROM t WHERE a = $1 AND id = $2', 'SELECT * FROM t WHERE a < $1 AND id = $2'])
+        first = rng.choice([(b'abc', 0), (_struct.pack('!i', 77), 1), (_struct.pack('!q', 123456789), 1)])
+        return {'kind': 'ext', 'sql': sql, 'params': [first[0], enc], 'fmts': [first[1], 1]}, sql
+    raise ValueError(path)
+
+
+def check_c06(prop, tier, seed):
+    v = core.Verdict(prop, tier, seed)
+    rng = random.Random(seed)
+    v.assumptions = [
+        'spec/PgHash.tla is a faithful transcription of PostgreSQL hashfn.c hash_uint32_extended / hashint8extended / '
+        'hash_combine64 (cross-checked in every run against an independent Python transcription and against the '
+        'PostgreSQL-derived vectors in src/sharding.rs)',
+        'SHA1 sharding: expected shards come from hashlib (outside what TLC decides); only agreement and persistence are decided',
+        'keys are sampled (boundary classes + seeded random), not exhaustive over 2^32 folded values',
+    ]
+    core.build_pgcat()
+    sessions = []
+    idx = 0
+    # ---- A. hash arithmetic: SET SHARDING KEY / SHOW SHARD, many keys, several shard counts
+    nkeys = {'quick': 3000, 'thorough': 120000}[tier]
+    ns = [2, 3, 5, 7, 12, 16, 64] if tier == 'quick' else [2, 3, 4, 5, 6, 7, 8, 9, 12, 16, 31, 64, 100]
+    per = 150
+    boundary = [0, 1, 2, 5, 6, 13, 1234, 2 ** 15, 2 ** 16 - 1, 2 ** 16, 2 ** 31 - 1, 2 ** 31, 2 ** 32 - 1, 2 ** 32, 2 ** 32 + 1,
+                2 ** 33, 2 ** 48, 2 ** 63 - 1, 2 ** 63 - 2, 0x7A5B22367996DCFD, 0x00000000FFFFFFFF, 0xFFFFFFFF, 0x0000FFFF0000FFFF]
+    made = 0
+    while made < nkeys:
+        n = ns[(made // per) % len(ns)]
+        fn = 'sha1' if (made // per) % 9 == 8 else 'pg_bigint_hash'
+        idx += 1
+        r2 = random.Random(seed * 977 + idx)
+        keys = []
+        for j in range(per):
+            c = r2.random()
+            if c < 0.15:
+                keys.append(r2.choice(boundary))
+            elif c < 0.5:
+                keys.append(r2.randrange(0, 2 ** 32))
+            elif c < 0.7:
+                keys.append(r2.randrange(0, 5000))
+            else:
+                keys.append(r2.randrange(0, 2 ** 63))
+        steps, meta = [], []
+        for k in keys:
+            text = spell_command(r2, 'set_key', str(k))
+            steps.append({'kind': 'q', 'sql': text, 'tag': False})
+            if fn == 'sha1':
+                meta.append({'m': 'cmd', 'op': 'set_key_ext', 'arg': str(k), 'text': text, 'expect': sha1_shard(k, n)})
+            else:
+                meta.append({'m': 'cmd', 'op': 'set_key', 'arg': str(k), 'text': text, 'key': k})
+            steps.append({'kind': 'q', 'sql': 'SHOW SHARD', 'tag': False})
+            meta.append({'m': 'cmd', 'op': 'show_shard', 'arg': '', 'text': 'SHOW SHARD'})
+        sessions.append({'id': idx, 'cfg': {'hash_n': n, 'sharding_function': fn, 'default_role': 'any'}, 'nshards': n,
+                         'steps': steps, 'meta': meta, 'family': 'hash', 'keys': keys, 'fn': fn})
+        made += per
+    # ---- B. path agreement, landing and stickiness on a 3-shard pool
+    paths = ['set_key', 'comment', 'literal', 'bind_text', 'bind_binary', 'bind_text_2nd', 'bind_binary_2nd']
+    nsess = {'quick': 700, 'thorough': 12000}[tier]
+    for j in range(nsess):
+        idx += 1
+        r2 = random.Random(seed * 613 + idx)
+        steps, meta, abstract = [], [], []
+        fn = 'sha1' if r2.random() < 0.1 else 'pg_bigint_hash'
+        cfg = dict(PATH_CFG, sharding_function=fn)
+        for _ in range(r2.randrange(1, 4)):
+            what = r2.choice(['key', 'key', 'key', 'set_shard', 'shard_comment', 'plain'])
+            if what == 'key':
+                path = paths[(j + len(steps)) % len(paths)]
+                cls = r2.choice(POS_CLASSES + (NEG_CLASSES if path not in ('set_key', 'literal') else []))
+                key = KEYCLASS[cls](r2)
+                ext = sha1_shard(key, routing.NSHARDS) if fn == 'sha1' else -1
+                abstract.append('%s:%s' % (path, cls))
+                if path == 'set_key':
+                    text = spell_command(r2, 'set_key', str(key))
+                    steps.append({'kind': 'q', 'sql': text, 'tag': False})
+                    if fn == 'sha1':
+                        meta.append({'m': 'cmd', 'op': 'set_key_ext', 'arg': str(key), 'text': text, 'expect': ext})
+                    else:
+                        meta.append({'m': 'cmd', 'op': 'set_key', 'arg': str(key), 'text': text, 'key': key})
+                    steps.append({'kind': 'q', 'sql': 'SELECT 1'})
+                    meta.append({'m': 'stmt', 'class': 'read', 'sql': 'SELECT 1', 'proto': 'simple', 'path': 'after_set_key'})
+                else:
+                    st, sql = key_step(r2, path, key)
+                    steps.append(st)
+                    meta.append({'m': 'stmt', 'class': 'read', 'sql': sql, 'proto': 'extended' if st['kind'] == 'ext' else 'simple',
+                                 'key': key, 'path': path + ':' + cls, 'ext': ext})
+            elif what == 'set_shard':
+                k = r2.choice([0, 1, 2, 3, 5, 100])
+                abstract.append('set_shard:%d' % k)
+                text = spell_command(r2, 'set_shard', str(k))
+                steps.append({'kind': 'q', 'sql': text, 'tag': False})
+                meta.append({'m': 'cmd', 'op': 'set_shard', 'arg': str(k), 'text': text, 'k': k})
+                steps.append({'kind': 'q', 'sql': 'SHOW SHARD', 'tag': False})
+                meta.append({'m': 'cmd', 'op': 'show_shard', 'arg': '', 'text': 'SHOW SHARD'})
+            elif what == 'shard_comment':
+                k = r2.choice([0, 1, 2])
+                abstract.append('shard_comment:%d' % k)
+                sql = '/* shard_id: %d */ SELECT 1' % k
+                steps.append({'kind': 'q', 'sql': sql})
+                meta.append({'m': 'stmt', 'class': 'read', 'sql': sql, 'proto': 'simple', 'path': 'shard_id_comment', 'setshard': k})
+            else:
+                abstract.append('plain')
+                sql = r2.choice(['SELECT 1', 'SELECT * FROM u WHERE x = 3', 'INSERT INTO u VALUES (1)'])
+                steps.append({'kind': 'q', 'sql': sql})
+                meta.append({'m': 'stmt', 'class': 'read', 'sql': sql, 'proto': 'simple', 'path': 'sticky'})
+        # final probe: the selection persists
+        steps.append({'kind': 'q', 'sql': 'SELECT 2'})
+        meta.append({'m': 'stmt', 'class': 'read', 'sql': 'SELECT 2', 'proto': 'simple', 'path': 'sticky'})
+        sessions.append({'id': idx, 'cfg': cfg, 'steps': steps, 'meta': meta, 'family': 'paths', 'abstract': abstract})
+    # out-of-range shard id comment: an error, never another shard
+    for j in range(20 if tier == 'quick' else 200):
+        idx += 1
+        r2 = random.Random(seed * 31 + idx)
+        k = r2.choice([3, 4, 17, 1000])
+        sql = '/* shard_id: %d */ SELECT 1' % k
+        sessions.append({'id': idx, 'cfg': dict(PATH_CFG), 'steps': [{'kind': 'q', 'sql': sql}],
+                         'meta': [{'m': 'oor', 'sql': sql}], 'family': 'oor', 'abstract': ['shard_comment_oor']})
+    sessions.sort(key=lambda s: routing.cfg_key(s['cfg']))
+    results = run_sessions(v, sessions, per_batch=40)
+    # oracle self-check: TLA+ PgShard vs Python transcription vs src/sharding.rs vectors is done by TLC on the trace
+    # (set_key events) and here for the Python side
+    tr_sessions, tr_results = [], []
+    for s, r in zip(sessions, results):
+        if r is None or not r.get('obs'):
+            v.tool_error('session %s did not run: %s' % (s['id'], (r or {}).get('error')))
+            continue
+        if s['family'] == 'oor':
+            o = r['obs'][0]
+            if o.get('landed'):
+                v.violation('out_of_range_shard_executed', {'sql': s['meta'][0]['sql'], 'landed': o['landed']},
+                            replay={'session': s['meta']})
+            elif not o.get('errors'):
+                v.violation('out_of_range_shard_no_error', {'sql': s['meta'][0]['sql'], 'reply': o.get('kinds')},
+                            replay={'session': s['meta']})
+            v.nontrivial_case('oor')
+            continue
+        tr_sessions.append(s)
+        tr_results.append(r)
+    recs, notes = build_trace(tr_sessions, tr_results)
+    v.cov['evaluations'] = len(sessions)
+    viol = validate(v, 'c06', recs)
+    v.cov['traces_validated_against_impl'] = len(tr_sessions) if not v.tool_errors else 0
+    # cross-check of the oracle itself (not a verdict on pgcat): python transcription vs what TLC accepted
+    mism = 0
+    nkey = 0
+    for s, r in zip(tr_sessions, tr_results):
+        if s['family'] != 'hash' or s['fn'] != 'pg_bigint_hash':
+            continue
+        obs = r['obs']
+        for i, k in enumerate(s['keys']):
+            if 2 * i + 1 < len(obs) and obs[2 * i + 1].get('rows'):
+                nkey += 1
+                got = obs[2 * i + 1]['rows'][0][0]
+                if str(py_pg_shard(k, s['nshards'])) != got:
+                    mism += 1
+    v.extra['hash_keys_checked'] = nkey
+    v.extra['python_oracle_disagreements_with_pgcat'] = mism
+    byid = {s['id']: s for s in sessions}
+    for s in sessions:
+        if s['family'] == 'paths':
+            for a in s['abstract']:
+                v.nontrivial_case(a)
+        elif s['family'] == 'hash':
+            v.nontrivial_case('hash:n=%d:%s' % (s['nshards'], s['fn']))
+    for sid, vs in viol.items():
+        s = byid[sid]
+        for vi in vs:
+            d = vi['detail']
+            if vi['kind'] == 'wrong_shard':
+                path = d.get('path', '') or 'after_set_key'
+                sig = 'wrong_shard/path=%s' % path
+            elif vi['kind'] == 'show_wrong_value':
+                sig = 'wrong_shard/path=set_sharding_key/n=%s' % s.get('nshards', 3)
+            elif vi['kind'] in ('wrong_role', 'transaction_moved'):
+                continue
+            else:
+                sig = vi['kind']
+            v.violation(sig, d, replay={'session': {'cfg': s['cfg'], 'texts': [m.get('text') or m.get('sql') for m in s['meta']][:12]}})
+    if mism and not viol:
+        v.tool_error('oracle inconsistency: Python transcription disagrees with pgcat on %d keys while TLC accepted them' % mism)
+    negative_control_c06(v, recs)
+    for s in sessions[:2] + [x for x in sessions if x['family'] == 'paths'][:2]:
+        v.add_sample({'cfg': s['cfg'], 'texts': [m.get('text') or m.get('sql') for m in s['meta']][:8]})
+    v.cov['rule'] = ('(A) %d keys (boundaries, dense, uniform 32/63-bit) over shard counts %s: SET SHARDING KEY + SHOW SHARD, '
+                     'expected shard computed by TLC from spec/PgHash.tla; (B) %d sessions mixing the routing paths '
+                     '(SET SHARDING KEY, sharding_key comment, literal = automatic sharding key, bound text/binary parameter in '
+                     '1st/2nd position, SET SHARD, shard_id comment) with landing on shard-labelled backends and a stickiness '
+                     'probe; distinct = path:keyclass combinations and (n, function) pairs' % (made, ns, nsess))
+    return v.finish()
+
+
+def negative_control_c06(v, recs):
+    for i, r in enumerate(recs):
+        if r['ev'] == 'cmd' and r['op'] == 'show_shard' and i > 0 and recs[i - 1]['ev'] == 'cmd' and recs[i - 1]['op'] == 'set_key':
+            start = i
+            while recs[start]['ev'] != 'reset':
+                start -= 1
+            seg = [dict(recs[start]), dict(recs[i - 1]), dict(r)]
+            n = seg[0]['cfg']['nshards']
+            seg[2]['value'] = str((int(seg[2]['value']) + 1) % n)
+            res, info = tlc.validate_trace('Trace_Router', 'Trace_Router.cfg', seg)
+            if any(x['kind'] == 'show_wrong_value' for x in info['viol']):
+                v.extra['negative_control'] = 'shard reported for one key shifted by one: rejected by PgHash'
+            else:
+                v.tool_error('negative control: shifted shard accepted')
+            return
+    v.tool_error('negative control: no SET SHARDING KEY / SHOW SHARD pair')
